@@ -338,6 +338,16 @@ class _BoolSimplify(ast.NodeTransformer):
     def visit_Call(self, node):
         """`getattr(X, "name")` with a literal identifier and no default is `X.name`."""
         self.generic_visit(node)
+        # (lambda p, q: BODY)(a, b)  ->  BODY[p := a, q := b]   (arguments that are plain names / attributes / constants, each
+        # parameter bound exactly once by position, no defaults / varargs, the body does not rebind them)
+        if isinstance(node.func, ast.Lambda) and not node.keywords and not any(isinstance(a, ast.Starred) for a in node.args):
+            la = node.func.args
+            if not (la.vararg or la.kwarg or la.kwonlyargs or la.defaults or la.posonlyargs) and len(la.args) == len(node.args) and all(isinstance(a, (ast.Name, ast.Constant)) or (isinstance(a, ast.Attribute) and isinstance(a.value, ast.Name)) for a in node.args):
+                mp = {p_.arg: a for p_, a in zip(la.args, node.args)}
+                inner_binds = {x.id for x in ast.walk(node.func.body) if isinstance(x, ast.Name) and isinstance(x.ctx, ast.Store)} | {a_.arg for l_ in ast.walk(node.func.body) if isinstance(l_, ast.Lambda) for a_ in l_.args.args}
+                if not (inner_binds & set(mp)):
+                    self.changed = True
+                    return ast.fix_missing_locations(ast.copy_location(_subst(copy.deepcopy(node.func.body), mp), node))
         # (f if c else g)(args)  ->  f(args) if c else g(args)   (the test is evaluated before the arguments either way)
         if isinstance(node.func, ast.IfExp) and _is_simple_expr(node.func.test):
             a = ast.Call(func=node.func.body, args=node.args, keywords=node.keywords)
@@ -650,10 +660,31 @@ class BlockNormalizer:
         out = self.n28_enumerate_to_index(out)
         out = self.n29_optional_value_guard(out)
         out = self.n30_copy_sort_truncate(out)
+        out = self.n31_sentinel_iter_loop(out)
         if len(out) != len(stmts) or any(a is not b for a, b in zip(out, stmts)):
             self.changed = True
             return out if out else [ast.Pass()]
         return stmts
+
+    def n31_sentinel_iter_loop(self, stmts):
+        """`for _ in iter(lambda: E, S): BODY`  ->  `while E != S: BODY`  (the two-argument iter calls the function before each
+        pass and stops when it returns the sentinel); with E = bool(X) and S = True / False the test is `not X` / `X`."""
+        out = []
+        for s in stmts:
+            if isinstance(s, ast.For) and not s.orelse and isinstance(s.target, ast.Name) and isinstance(s.iter, ast.Call) and _u(s.iter.func) == "iter" and len(s.iter.args) == 2 and not s.iter.keywords and isinstance(s.iter.args[0], ast.Lambda) and not s.iter.args[0].args.args and isinstance(s.iter.args[1], ast.Constant):
+                used = any(isinstance(x, ast.Name) and x.id == s.target.id and isinstance(x.ctx, ast.Load) for b in s.body for x in ast.walk(b))
+                if not used:
+                    E, S = s.iter.args[0].body, s.iter.args[1]
+                    if isinstance(E, ast.Call) and _u(E.func) == "bool" and len(E.args) == 1 and isinstance(S.value, bool):
+                        test = ast.UnaryOp(op=ast.Not(), operand=E.args[0]) if S.value is True else E.args[0]
+                    else:
+                        test = ast.Compare(left=E, ops=[ast.NotEq()], comparators=[S])
+                    new = ast.copy_location(ast.While(test=test, body=s.body, orelse=[]), s)
+                    ast.fix_missing_locations(new)
+                    out.append(new)
+                    continue
+            out.append(s)
+        return out
 
     def n7_tuple_assign(self, stmts):
         out = []
